@@ -278,6 +278,8 @@ def c04(res: CheckResult) -> None:
              list(DF.fam_dunder(res.tier, rng)), ic, verdicts=True, rng=rng)
     def_unit(res, "async def members in hierarchies and under invariants of every check_on combination",
              list(DF.fam_async_members(res.tier, rng)), ic, verdicts=True, rng=rng)
+    def_unit(res, "properties with / without setters along hierarchies: each accessor inherits on its own",
+             list(DF.fam_accessors(res.tier, rng)), ic, verdicts=True, rng=rng)
     def_unit(res, "invariant lists along definition histories (every check_on combination): which members check them",
              list(DF.fam_inv_lists(res.tier, rng)), ic, verdicts=True, rng=rng)
     def_unit(res, "wrap table: which members of a class and of its sub-classes check the accumulated invariants",
